@@ -127,6 +127,17 @@ class Engine(object):
         self.fresh += 1
         return '%s!%d' % (prefix, self.fresh)
 
+    def _retry_unknown(self):
+        """z3's timeout is wall-clock time: on a loaded machine a query that needs a few CPU seconds can run into it.  One
+        retry with six times the budget before the path is given up as inconclusive (never as a verdict)."""
+        if 'timeout' not in (self.solver.reason_unknown() or '') and 'canceled' not in (self.solver.reason_unknown() or ''):
+            return z3.unknown
+        self.solver.set('timeout', self.timeout_ms * 6)
+        try:
+            return self.solver.check()
+        finally:
+            self.solver.set('timeout', self.timeout_ms)
+
     def check(self, *extra):
         t = time.time()
         if extra:
@@ -134,9 +145,13 @@ class Engine(object):
             for e in extra:
                 self.solver.add(e)
             r = self.solver.check()
+            if r == z3.unknown:
+                r = self._retry_unknown()
             self.solver.pop()
         else:
             r = self.solver.check()
+            if r == z3.unknown:
+                r = self._retry_unknown()
         self.nq += 1
         self.tq += time.time() - t
         if r == z3.unknown:
